@@ -155,7 +155,7 @@ func init() {
 						r.Backend.Resp.WriteMode, r.Backend.Resp.WriteSizes = "sizes", []int{Pick(c, 1, 2, 3, 5, 7)}
 					}
 				} else if c.Prob(0.45) {
-					spoil(c, r, Pick(c, "cut", "corrupt-compressed", "backend-panic", "client-gone", "backend-garbage", "undecodable", "corrupt-response", "bad-validation"))
+					spoil(c, r, Pick(c, "cut", "corrupt-compressed", "backend-panic", "client-gone", "backend-garbage", "end-garbage", "end-garbage", "undecodable", "corrupt-response", "bad-validation"))
 				}
 				rpcs = append(rpcs, *r)
 			}
@@ -167,8 +167,8 @@ func init() {
 			return &Plan{Config: ConfigPlan{Services: []ServicePlan{svc}}, RPCs: rpcs, Concurrent: true, Sched: sched,
 				Pool: PoolPlan{Policy: Pick(c, "lifo", "random", "fifo"), Seed: c.Uint64(), Poison: c.Prob(0.8), Quarantine: Pick(c, 0, 0, 3)}, StepCap: 600000}
 		},
-		Oracle:      c14Oracle,
-		Components:  stdComponents,
+		Oracle:     c14Oracle,
+		Components: stdComponents,
 		Assumptions: []string{"one task runs at a time: data races are not observed by this check (the race-detector mode described in DESIGN 3.5 is a separate build)",
 			"only faults placed at byte offsets are injected here, so that an RPC's own outcome does not depend on the schedule"},
 	})
